@@ -135,11 +135,26 @@ def generate(seed, tier):
                  "compound": wrng.random() < 0.6,
                  "inlinelimit": wrng.choice((1, 1, 3))}
         layouts.append({"ops": layout_ops(wrng, rounds), "knobs": knobs})
+    # 20% of the runs end, in every layout, with a field taken out of the schema and the index-level
+    # ix.optimize(): whatever the layout was, optimizing must physically drop the removed field
+    xr = random.Random("%s/remove" % seed)
+    removable = [n for n in cfg.fields if n not in ("k", "u", "t", "sp") and "*" not in n]
+    removed = None
+    if removable and xr.random() < 0.2:
+        removed = xr.choice(removable)
+        for lay in layouts:
+            lay["ops"] = lay["ops"] + [["writer", {}], ["remove_field", removed], ["commit", {"merge": "none"}], ["ix_optimize"]]
     from whoosim import queries as Q
     qr = random.Random("%s/queries" % seed)
-    rec = {"prop": ID, "seed": seed, "config": cfg.describe(), "layouts": layouts,
+    if removed:
+        cfg.fields = [n for n in cfg.fields if n != removed]   # (after describe() below would be too late for the queries only)
+    rec = {"prop": ID, "seed": seed, "config": None, "layouts": layouts,
            "has_deletes": deletes,
            "queries": [Q.gen_shaped_query(qr, cfg) for _ in range(3)] + [Q.gen_query(qr, cfg, depth=2) for _ in range(2)]}
+    if removed:
+        cfg.fields = cfg.fields + [removed]
+    rec["config"] = cfg.describe()
+    rec["removed_field"] = removed
     return rec
 
 
@@ -196,6 +211,13 @@ def make_hooks(s, record, state):
                 got = D.real_dump(r, mi.schema, parts=("terms",))
                 if got.get("dead_terms"):
                     raise Violation("optimize_physically_removes", "after optimize the lexicon still lists terms without live postings: %s" % (got["dead_terms"][:4],))
+                gone = set(getattr(mi, "ever_removed", ())) - set(mi.field_names)
+                still = sorted(gone & set(r.indexed_field_names()))
+                if still:
+                    raise Violation("optimize_physically_removes", "after optimize the segment still holds the postings of removed field(s) %s (indexed_field_names() = %s)"
+                                    % (still, sorted(r.indexed_field_names())), sig="optimize_physically_removes:removed_field")
+                if gone:
+                    s.count("removed_field_purge_checks")
                 s.count("optimize_checks")
             # collection statistics (no deletions ever): layout independent == model
             if not record.get("has_deletes"):
